@@ -5,7 +5,9 @@ import (
 	"go/token"
 	"go/types"
 	"os"
+	"runtime"
 	"sort"
+	"strconv"
 	"strings"
 	"sync"
 	"time"
@@ -328,7 +330,7 @@ func (o *Obligation) query(extraValues bool) string {
 
 func dischargeAll(obls []*Obligation, opts RunOpts) {
 	var wg sync.WaitGroup
-	sem := make(chan struct{}, 12)
+	sem := make(chan struct{}, queryParallelism())
 	for _, o := range obls {
 		if o.Result.Status != "" { // bind / engine errors are already decided
 			continue
@@ -352,19 +354,70 @@ func dischargeAll(obls []*Obligation, opts RunOpts) {
 					res.Output = r2.Output
 				}
 			}
-			if (res.Status == "timeout" || res.Status == "unknown") && !o.Cover && o.Ctx != nil {
+			o.Result = res
+		}(o)
+	}
+	wg.Wait()
+	// second pass: an obligation without a verdict (timeout / unknown) is not yet a violation. It is run
+	// again, few at a time (so that the machine's load cannot be the reason), with three times the
+	// time and other solver seeds. A proof found here is a proof; only an obligation that still has no
+	// verdict is reported. (A `sat` answer is never retried.)
+	sem2 := make(chan struct{}, 3)
+	for _, o := range obls {
+		if o.Cover || o.Ctx == nil || (o.Result.Status != "timeout" && o.Result.Status != "unknown") {
+			continue
+		}
+		wg.Add(1)
+		go func(o *Obligation) {
+			defer wg.Done()
+			sem2 <- struct{}{}
+			defer func() { <-sem2 }()
+			first := o.Result
+			q := o.query(false)
+			for attempt := 1; attempt <= 2; attempt++ {
+				res := solveSeeded(q, 3*opts.Timeout, opts.Workdir, fmt.Sprintf("%s.retry%d", o.Name, attempt), opts.Agree, attempt)
+				for k, v := range first.All {
+					res.All[k+"/first"] = v
+				}
+				if res.Status == "unsat" || res.Status == "sat" {
+					res.Retried = attempt
+					o.Result = res
+					break
+				}
+			}
+			if o.Result.Status == "sat" && len(o.Ctx.witness) > 0 {
+				r2 := solve(o.query(true), opts.Timeout, opts.Workdir, o.Name+".model", 1)
+				if r2.Status == "sat" {
+					o.Result.Output = r2.Output
+				}
+			}
+			if o.Result.Status == "timeout" || o.Result.Status == "unknown" {
 				// no verdict: look for a candidate counterexample in the query without its
 				// quantified assumptions; it is reported only as a candidate (replay decides)
 				r2 := solveOne(o.relaxedQuery(), opts.Timeout, opts.Workdir, o.Name+".relaxed")
 				if r2.Status == "sat" {
 					o.Relaxed = true
-					res.Output = "candidate model from the query without quantified assumptions (to be confirmed by replay)"
+					o.Result.Output = "candidate model from the query without quantified assumptions (to be confirmed by replay)"
 				}
 			}
-			o.Result = res
 		}(o)
 	}
 	wg.Wait()
+}
+
+// queryParallelism: obligations in flight at once (each races three solver processes).
+func queryParallelism() int {
+	if v, err := strconv.Atoi(os.Getenv("GVC_PAR")); err == nil && v > 0 {
+		return v
+	}
+	n := runtime.NumCPU() / 3
+	if n < 2 {
+		n = 2
+	}
+	if n > 12 {
+		n = 12
+	}
+	return n
 }
 
 // ok reports whether the obligation is discharged.
